@@ -163,13 +163,22 @@ theorem freeAll_spec (L : List Nat) : ∀ (s : State), InvCore s → (∀ j ∈ 
       | false => rfl
       | true => have := a7 i hh; rw [this] at hi; cases hi
 
+theorem uaf_freeOne (s : State) (j : Nat) : (freeOne s j).uaf = s.uaf := by
+  unfold freeOne; split <;> rfl
+
+theorem uaf_freeAll (L : List Nat) : ∀ (s : State), (freeAll s L).uaf = s.uaf := by
+  induction L with
+  | nil => intro s; rfl
+  | cons j L ih => intro s; simp only [freeAll]; rw [ih, uaf_freeOne]
+
 /-- `process_pending_free` preserves the invariant -/
 theorem inv_processPendingFree {s : State} (h : Inv s) : Inv (processPendingFree s) := by
   unfold processPendingFree
   have h0 : InvCore { s with pendingFree := [] } :=
     ⟨h.shapeRc, h.shapeFr, h.acct, h.freedZero, h.freeFreed, h.freedFree, h.freeNodup⟩
   obtain ⟨a1, a2, a3, a4, a5, _, a7, a8, _, _⟩ := freeAll_spec s.pendingFree _ h0 h.pendLt
-  refine ⟨a1.shapeRc, a1.shapeFr, a1.acct, a1.freedZero, a1.freeFreed, a1.freedFree, a1.freeNodup, ?_, ?_⟩
+  refine ⟨a1.shapeRc, a1.shapeFr, a1.acct, a1.freedZero, a1.freeFreed, a1.freedFree, a1.freeNodup, ?_, ?_,
+    by rw [uaf_freeAll]; exact h.noUaf⟩
   · intro i hi hz hnf
     right
     rw [a4]
@@ -224,18 +233,18 @@ theorem ppf_frame {s : State} (h : Inv s) :
 
 /-! ### materialize -/
 
-theorem inv_materialize {s : State} (h : Inv s) (index : Nat) : Inv (materialize s index).2 := by
-  unfold materialize
+theorem inv_materializeCore {s : State} (h : Inv s) (index : Nat) : Inv (materializeCore s index).2 := by
+  unfold materializeCore
   split
   · exact h
   · exact ⟨by simpa using h.shapeRc, by simpa using h.shapeFr, h.acct, h.freedZero, h.freeFreed,
       h.freedFree, h.freeNodup, fun i hi hz hnf => h.queued i (by simpa using hi) hz hnf,
-      fun j hj => by simpa using h.pendLt j hj⟩
+      fun j hj => by simpa using h.pendLt j hj, h.noUaf⟩
   · exact h
 
 /-- flattening is content-preserving on every slot -/
-theorem bytesAt_materialize (s : State) (index i : Nat) : (materialize s index).2.bytesAt i = s.bytesAt i := by
-  unfold materialize
+theorem bytesAt_materializeCore (s : State) (index i : Nat) : (materializeCore s index).2.bytesAt i = s.bytesAt i := by
+  unfold materializeCore
   split
   · rfl
   · rename_i bs hget
@@ -249,22 +258,44 @@ theorem bytesAt_materialize (s : State) (index i : Nat) : (materialize s index).
     · rfl
   · rfl
 
-theorem materialize_fst (s : State) (index : Nat) (h : index < s.heap.size) :
-    (materialize s index).1 = s.bytesAt index := by
+theorem materializeCore_fst (s : State) (index : Nat) (h : index < s.heap.size) :
+    (materializeCore s index).1 = s.bytesAt index := by
   have hg : s.heap[index]? = some s.heap[index] := by simp [h]
   cases hd : s.heap[index] with
-  | owned bs => simp [materialize, hg, hd, State.bytesAt, Array.getD_eq_getD_getElem?, Data.toVec]
-  | rope bs => simp [materialize, hg, hd, State.bytesAt, Array.getD_eq_getD_getElem?, Data.toVec]
+  | owned bs => simp [materializeCore, hg, hd, State.bytesAt, Array.getD_eq_getD_getElem?, Data.toVec]
+  | rope bs => simp [materializeCore, hg, hd, State.bytesAt, Array.getD_eq_getD_getElem?, Data.toVec]
+
+theorem stable_materializeCore (s : State) (index : Nat) : Stable s (materializeCore s index).2 := by
+  refine ⟨?_, ?_⟩
+  · unfold materializeCore; split <;> simp
+  · intro i _ hf
+    refine ⟨?_, bytesAt_materializeCore s index i⟩
+    unfold materializeCore; split <;> exact hf
+
+theorem rootsEq_materializeCore (s : State) (index : Nat) : RootsEq s (materializeCore s index).2 := by
+  unfold materializeCore; split <;> exact ⟨rfl, rfl, rfl⟩
+
+theorem inv_withUaf {s : State} (h : Inv s) {b : Bool} (hb : b = false) : Inv { s with uaf := b } :=
+  ⟨h.shapeRc, h.shapeFr, h.acct, h.freedZero, h.freeFreed, h.freedFree, h.freeNodup, h.queued, h.pendLt, hb⟩
+
+/-- `materialize` of a slot that is not freed (the handle is live) -/
+theorem inv_materialize {s : State} (h : Inv s) (index : Nat) (hnf : s.isFreed index = false) :
+    Inv (materialize s index).2 :=
+  inv_withUaf (inv_materializeCore h index) (by simp [h.noUaf, hnf])
+
+theorem bytesAt_materialize (s : State) (index i : Nat) : (materialize s index).2.bytesAt i = s.bytesAt i :=
+  bytesAt_materializeCore s index i
+
+theorem materialize_fst (s : State) (index : Nat) (h : index < s.heap.size) :
+    (materialize s index).1 = s.bytesAt index := materializeCore_fst s index h
 
 theorem stable_materialize (s : State) (index : Nat) : Stable s (materialize s index).2 := by
-  refine ⟨?_, ?_⟩
-  · unfold materialize; split <;> simp
-  · intro i _ hf
-    refine ⟨?_, bytesAt_materialize s index i⟩
-    unfold materialize; split <;> exact hf
+  have h := stable_materializeCore s index
+  exact ⟨h.size, h.keep⟩
 
 theorem rootsEq_materialize (s : State) (index : Nat) : RootsEq s (materialize s index).2 := by
-  unfold materialize; split <;> exact ⟨rfl, rfl, rfl⟩
+  have h := rootsEq_materializeCore s index
+  exact ⟨h.procs, h.consts, h.transit⟩
 
 /-! ### the constant cache -/
 
@@ -381,7 +412,7 @@ theorem cachedConstantBinary_spec {s : State} (h : Inv s) (index : Nat) (bytes :
         have hinv : Inv (retain { s1 with constantBinaries :=
             (resizeCache s1.constantBinaries index).setIfInBounds index (some (.heap idx)) } (.bin (.heap idx))) := by
           refine inv_retain_add h1 hlive ?_ ?_
-          · constructor <;> simp [retain, retainIdx]
+          · constructor <;> simp [retain, retainIdx, State.isFreed]
           · intro i
             have ⟨hget, hcnt⟩ := resizeCache_get (i := i) s1.constantBinaries index hnb
             simp only [retain, retainIdx, countRefs, constCount, floating, Array.toList_setIfInBounds,
